@@ -269,7 +269,10 @@ def cmd_run(args):
     ev = {"property_id": pid, "tier": tier, "seed": seed, "level": cfg["level"], "coverage": cov,
           "assumptions": cfg.get("assumptions", []), "wall_s": round(wall, 2), "violations": len(violations),
           "repo": repo, "flavours": flavours}
-    json.dump(ev, open(os.path.join(ROOT, "evidence", pid + ".json"), "w"), indent=1)
+    # evidence/ describes runs against /repo itself; a run against a scratch copy (--repo) leaves it alone
+    evdir = os.path.join(ROOT, "evidence") if tag == "repo" else os.path.join(ROOT, "build", "out", "evidence-" + tag)
+    os.makedirs(evdir, exist_ok=True)
+    json.dump(ev, open(os.path.join(evdir, pid + ".json"), "w"), indent=1)
 
     for (sig, path, case, detail) in violations:
         print("VIOLATION property=%s replay=%s sig=%s case=%s %s" % (pid, path, sig, case, detail[:400]))
